@@ -20,7 +20,7 @@ LEVEL = 'fault_enumeration'
 EVAL_KEY = 'calls'
 C = 10.0
 TIERS = {
-    'quick': {'runs': 3000, 'opts': {}, 'chunk': 30},
+    'quick': {'runs': 20000, 'opts': {}, 'chunk': 100},
     'thorough': {'runs': 80000, 'opts': {}, 'chunk': 100, 'time_cap': 1200},
 }
 RULE = ('seeded TT tensors/operators of order 1..6; reshape to an ordered factorisation/merge of the element count with 0-2 singleton '
@@ -208,7 +208,10 @@ def contract(p, x, y, No, Mo, ref):
     e = p['eps'] if p['eps'] is not None else default_eps(p['routine'])
     u = gen.UNIT_ROUNDOFF[p['dt']]
     d = max(len(x.N), len(No))
-    bound = C * e * nx + 2000 * u * nx * d
+    rep = 1.0      # magnitude of the representation (see c02): roundoff is relative to prod ||G_k||, not to ||x||
+    for c_ in x.cores:
+        rep *= gen.fro(c_)
+    bound = C * e * nx + 2000 * u * max(nx, rep) * d
     LAST['ratio'] = err / max(bound, 1e-300)
     if not err <= bound:
         # diagnose sign / phase loss
